@@ -110,7 +110,10 @@ void cm_emit(cm_model_t *m) {
 	for (int i = 0; i < m->nt; i++) {
 		const cm_train_t *t = &m->t[i];
 		AP(m->train_txt, "  - id: %s\n    dcc-address: 0x%02x%02x\n    dcc-speed-steps: %d\n", t->id, t->addrh, t->addrl, t->steps);
-		if (t->ncal) { AP(m->train_txt, "    calibration:\n"); for (int k = 0; k < t->ncal; k++) AP(m->train_txt, "      - %d\n", t->cal[k]); }
+		if (t->cal_form == 1) AP(m->train_txt, "    calibration: 120\n");
+		else if (t->cal_form == 2) AP(m->train_txt, "    calibration:\n");
+		else if (t->cal_form == 3) AP(m->train_txt, "    calibration: 120\n    weight: 100g\n");
+		else if (t->ncal) { AP(m->train_txt, "    calibration:\n"); for (int k = 0; k < t->ncal; k++) AP(m->train_txt, "      - %d\n", t->cal[k]); }
 		if (t->nper) { AP(m->train_txt, "    peripherals:\n"); for (int k = 0; k < t->nper; k++) { AP(m->train_txt, "      - id: %s\n        bit: %d\n", t->per[k].id, t->per[k].bit); if (t->per[k].has_initial) AP(m->train_txt, "        initial: %d\n", t->per[k].initial); } }
 	}
 	if (m->num_style) { char *txt[3] = {m->board_txt, m->track_txt, m->train_txt};
